@@ -290,6 +290,8 @@ def vkey(v):
         return "fn:" + v.path
     if v is None:
         return "⊥"
+    if hasattr(v, "pieces"):
+        return "bstr:" + repr(v.pieces)
     return repr(v)
 
 
@@ -1095,7 +1097,8 @@ class Executor:
         name = e["m"]
         # receiver: keep places for mutating built-ins
         if name in ("take", "insert", "push", "get_or_insert_with", "replace", "extend", "as_mut", "sort_unstable", "sort",
-                    "set_message", "set_source", "set_request_id", "set_status_code", "set_headers", "take_headers"):
+                    "set_message", "set_source", "set_request_id", "set_status_code", "set_headers", "take_headers",
+                    "put", "put_u8", "put_u16", "put_u32", "extend_from_slice", "push_str", "pop"):
             try:
                 pl = self.place(e["recv"], env)
                 recv = RefV(pl)
